@@ -48,6 +48,20 @@
  *       else process and RelayMessage(origin, obj, fresh message, true)).  a = the event was processed; the rest as for R.
  *       The model side is `deliver`: originOf, accept, relay.
  *
+ *   E <conn> <from> <originzone> <objzone> <method> <var> | a=<0|1> s=<eps> p=<0|1> oz=<zone|-|!> ts=<0|1> old=<n> bad=<n> x=<n> m=<ep>
+ *       one network step through a REAL cluster event handler (lib/icinga/clusterevents.cpp): the raw JSON-RPC message
+ *       `event::<method>` about the Host / Service / Notification / Comment / Downtime object the node holds for zone <objzone>
+ *       (`-`: the objects without zone attribute; var bit 0: service instead of host, SetRemovalInfo bit 1: downtime instead of
+ *       comment) is handed to the real JsonRpcConnection::MessageHandler of endpoint <from>'s connection.  a = the node
+ *       processed the event (state of the target objects changed or one of the notification signals fired), s / oz / ts / old =
+ *       the copies of `event::<method>` the node queued (on EVERY connection, the sender's included), x = number of queued
+ *       messages with another method (events the node generates itself while processing), p = the replay log grew.
+ *   P <objzone> <kind> <del> <target> | p=<0|1> r=<0|1> x=<n>
+ *       the REPLAY path: with nobody connected the node relays a local event about the object (kind as for R) - it is persisted
+ *       when some entitled directly related endpoint exists -, then (del=1, kind u) the object is removed from the registry,
+ *       endpoint <target> connects and the real ApiListener::ReplayLog runs for its connection.  r = the event was replayed to
+ *       <target>, x = anything else queued anywhere.
+ *
  * Modes: gen --seed S --tier quick|thorough [--work DIR]     enumeration + seeded sampling
  *        ops FILE [--work DIR]                               replay T/R lines (text after `|` ignored)
  *        node FILE --work DIR --id K                         (internal) one process = one topology
@@ -67,6 +81,16 @@
 #include "remote/messageorigin.hpp"
 #include "remote/pkiutility.hpp"
 #include "icinga/user.hpp"
+#include "icinga/host.hpp"
+#include "icinga/service.hpp"
+#include "icinga/notification.hpp"
+#include "icinga/comment.hpp"
+#include "icinga/downtime.hpp"
+#include "icinga/checkcommand.hpp"
+#include "icinga/clusterevents.hpp"
+#include "base/function.hpp"
+#include "base/serializer.hpp"
+#include "base/json.hpp"
 #include <algorithm>
 #include <filesystem>
 #include <fstream>
@@ -88,6 +112,11 @@ VH_ROB_MEMBER(SyncQTag, ApiListener, WorkQueue, m_SyncQueue)
 VH_ROB_MEMBER(LogCountTag, ApiListener, size_t, m_LogMessageCount)
 typedef void MhFn(const Dictionary::Ptr&);
 VH_ROB_MEMBER(MhTag, JsonRpcConnection, MhFn, MessageHandler)
+typedef void RlFn(const JsonRpcConnection::Ptr&);
+VH_ROB_MEMBER(ReplayTag, ApiListener, RlFn, ReplayLog)
+typedef void VoidFn();
+VH_ROB_MEMBER(OpenTag, ApiListener, VoidFn, OpenLogFile)
+VH_ROB_MEMBER(CloseTag, ApiListener, VoidFn, CloseLogFile)
 }
 
 static void Die(const std::string& msg)
@@ -107,6 +136,24 @@ static std::vector<std::string> Words(const std::string& line)
 		w.push_back(t);
 	}
 	return w;
+}
+
+/* the real cluster events that are re-relayed by the node that processes them (lib/icinga/clusterevents.cpp).
+ * sec: what the relaying signal handler passes to RelayMessage as security object: c the checkable, n the notification,
+ * o the comment / downtime, - nothing (nullptr: the message goes to the node's own zone and its parents) */
+struct EvMethod { const char *name; char sec; };
+static const EvMethod kMethods[] = {
+	{ "SetNextCheck", 'c' }, { "SetLastCheckStarted", 'c' }, { "SetStateBeforeSuppression", '-' },
+	{ "SetSuppressedNotifications", '-' }, { "SetSuppressedNotificationTypes", '-' }, { "SetNextNotification", 'n' },
+	{ "UpdateLastNotifiedStatePerUser", 'n' }, { "ClearLastNotifiedStatePerUser", 'n' }, { "SetForceNextCheck", 'c' },
+	{ "SetForceNextNotification", 'c' }, { "SetAcknowledgement", 'c' }, { "ClearAcknowledgement", 'c' },
+	{ "SendNotifications", '-' }, { "NotificationSentUser", '-' }, { "NotificationSentToAllUsers", '-' },
+	{ "UpdateExecutions", 'c' }, { "SetRemovalInfo", 'o' }, { "CheckResult", 'c' },
+};
+static const EvMethod *FindMethod(const std::string& m)
+{
+	for (auto& e : kMethods) if (m == e.name) return &e;
+	return nullptr;
 }
 
 /* ------------------------------------------------------------------------------------------- */
@@ -231,6 +278,7 @@ static std::string ListTok(std::vector<int> v)
 	return s;
 }
 
+static int evPerPoint = 2;
 static void GenCases(const Topo& t0, int self, Rng& rng, size_t cap, std::vector<std::string>& out, size_t& fullPairs)
 {
 	Topo t = t0;
@@ -333,6 +381,47 @@ static void GenCases(const Topo& t0, int self, Rng& rng, size_t cap, std::vector
 			for (size_t i = 0; i < cap / 2; i++) emitD(rng.below(nconn), senders[rng.below(senders.size())], (int)rng.below((uint64_t)nz));
 		}
 	}
+	/* network steps through the REAL cluster event handlers (E lines): every other endpoint as sender x originZone field x
+	 * object zone, the methods and their variants dealt round-robin (every variant is met many times per topology) */
+	if (nep > 1) {
+		struct Variant { const char *m; char sec; int var; };
+		static std::vector<Variant> variants;
+		if (variants.empty()) {
+			for (auto& e : kMethods) {
+				int nv = std::string(e.name) == "SetRemovalInfo" ? 4 : 2;
+				for (int v = 0; v < nv; v++) variants.push_back({ e.name, e.sec, v });
+			}
+		}
+		int perPoint = evPerPoint;
+		for (int e = 0; e < nep; e++) {
+			if (e == self) continue;
+			std::vector<std::string> ozs;
+			ozs.push_back("-");
+			if (t.zoneOf[e] == lz) for (int z = 0; z < nz; z++) ozs.push_back(std::to_string(z));
+			else ozs.push_back(std::to_string((int)rng.below((uint64_t)nz)));
+			for (auto& ozf : ozs)
+				for (int z = 0; z <= nz; z++)
+					for (int k = 0; k < perPoint; k++) {
+						Variant v = variants[rng.below(variants.size())];
+						for (int tries = 0; tries < 40 && v.sec == 'c' && z < nz && t.Global(z); tries++) v = variants[rng.below(variants.size())];
+						if (v.sec == 'c' && z < nz && t.Global(z)) continue;
+						std::string conn = connFor(rng.below(nconn));
+						if (conn[e] == '0') conn[e] = rng.below(6) ? '1' : 's';
+						out.push_back("E " + conn + " " + std::to_string(e) + " " + ozf + " " + (z < nz ? std::to_string(z) : std::string("-")) + " " + v.m + " " + std::to_string(v.var));
+					}
+		}
+		/* the replay path (P lines): every object zone x kind x present / deleted x every other endpoint as the one that connects */
+		for (int e = 0; e < nep; e++) {
+			if (e == self) continue;
+			for (int z = 0; z <= nz; z++) {
+				std::string zt = z < nz ? std::to_string(z) : std::string("-");
+				if (z < nz) out.push_back("P " + zt + " z 0 " + std::to_string(e));
+				else out.push_back("P - n 0 " + std::to_string(e));
+				out.push_back("P " + zt + " u 0 " + std::to_string(e));
+				out.push_back("P " + zt + " u 1 " + std::to_string(e));
+			}
+		}
+	}
 }
 
 /* both members of every two-member zone are asked for their master: every combination of (not connected, connected,
@@ -387,6 +476,7 @@ static void GenAll(uint64_t seed, bool thorough, std::vector<std::vector<std::st
 {
 	Rng rng(seed * 0x9e3779b97f4a7c15ULL + 11);
 	size_t cap = thorough ? 20000 : 2500;
+	evPerPoint = thorough ? 6 : 2;
 	int maxZones = 5;
 	for (int n = 1; n <= maxZones; n++) {
 		for (auto& forest : Forests(n)) {
@@ -484,7 +574,29 @@ static int l_HandlerAccepted = 0;
 static Dictionary::Ptr l_LastRelayed;
 static long l_Tick = 0;
 
+static int l_Signals = 0;                                    /* notification signals fired (events that change no attribute) */
+
 static std::string ZoneName(int z) { return "z" + std::to_string(z); }
+/* objects of zone z; z == number of zones: the objects without zone attribute */
+static std::string HostName(int z) { return z < (int)l_T.parent.size() ? "h" + std::to_string(z) : std::string("hU"); }
+
+static void SetF(const ConfigObject::Ptr& o, const char *field, const Value& v)
+{
+	int id = o->GetReflectionType()->GetFieldId(field);
+	if (id < 0) { fprintf(stderr, "h_c11: no field %s\n", field); _exit(2); }
+	o->SetField(id, v);
+}
+
+static void Bring(const ConfigObject::Ptr& p)
+{
+	p->Register();
+	p->OnAllConfigLoaded();
+	p->PreActivate();
+	p->Activate();
+	p->SetAuthority(true);
+}
+
+static void VExec(const Checkable::Ptr&, const CheckResult::Ptr&, const Dictionary::Ptr&, bool) { }
 static std::string EpName(int e) { char b[16]; snprintf(b, sizeof b, "e%02d", e); return b; }
 
 static void MkDirs(const std::string& p) { std::error_code ec; fs::create_directories(p, ec); }
@@ -652,6 +764,71 @@ static void BuildNode(const std::string& work, const std::string& id)
 		static_pointer_cast<ConfigObject>(u)->OnAllConfigLoaded();
 		if (z < nz && u->GetZone() != l_Zones[z]) Die("user zone not resolved");
 		l_Users.push_back(u);
+	}
+	/* the objects the real cluster events are about: per zone (and without zone) a host, a service, a notification, a comment
+	 * and a downtime for each.  A checkable cannot live in a global zone; there the host and service carry no zone attribute. */
+	{
+		CheckCommand::Ptr cmd = new CheckCommand();
+		cmd->SetName("vcmd");
+		cmd->SetExecute(new Function("vexec", VExec));
+		Bring(cmd);
+		User::Ptr user = new User();
+		user->SetName("usr1");
+		Bring(user);
+		for (int z = 0; z <= nz; z++) {
+			String zn = z < nz ? String(ZoneName(z)) : String();
+			bool glob = z < nz && l_T.Global(z);
+			String hn = String(HostName(z));
+			Host::Ptr h = new Host();
+			h->SetName(hn);
+			SetF(h, "check_command", "vcmd");
+			h->SetZoneName(glob ? String() : zn);
+			Bring(h);
+			Service::Ptr sv = new Service();
+			SetF(sv, "host_name", hn);
+			sv->SetShortName("s", true);
+			sv->SetName(hn + "!s");
+			SetF(sv, "check_command", "vcmd");
+			sv->SetZoneName(glob ? String() : zn);
+			Bring(sv);
+			for (const char *suffix : { "!n", "!s!n" }) {
+				Notification::Ptr nt = new Notification();
+				SetF(nt, "host_name", hn);
+				if (suffix[1] == 's') SetF(nt, "service_name", "s");
+				nt->SetName(hn + suffix);
+				nt->SetZoneName(zn);
+				Bring(nt);
+			}
+			for (const char *suffix : { "!d", "!s!d" }) {
+				Downtime::Ptr d = new Downtime();
+				SetF(d, "host_name", hn);
+				if (suffix[1] == 's') SetF(d, "service_name", "s");
+				d->SetFixed(true);
+				d->SetStartTime(4e9); d->SetEndTime(4e9 + 3600); d->SetEntryTime(1);
+				d->SetAuthor("v"); d->SetComment("v");
+				d->SetName(hn + suffix);
+				d->SetZoneName(zn);
+				Bring(d);
+			}
+			for (const char *suffix : { "!c", "!s!c" }) {
+				Comment::Ptr c = new Comment();
+				SetF(c, "host_name", hn);
+				if (suffix[1] == 's') SetF(c, "service_name", "s");
+				c->SetAuthor("v");
+				c->SetText("v");
+				c->SetName(hn + suffix);
+				c->SetZoneName(zn);
+				Bring(c);
+			}
+		}
+		Checkable::OnNotificationsRequested.connect([](const Checkable::Ptr&, NotificationType, const CheckResult::Ptr&,
+			const String&, const String&, const MessageOrigin::Ptr&) { l_Signals++; });
+		Checkable::OnNotificationSentToUser.connect([](const Notification::Ptr&, const Checkable::Ptr&, const User::Ptr&,
+			const NotificationType&, const CheckResult::Ptr&, const String&, const String&, const String&,
+			const MessageOrigin::Ptr&) { l_Signals++; });
+		Checkable::OnNotificationSentToAllUsers.connect([](const Notification::Ptr&, const Checkable::Ptr&, const std::set<User::Ptr>&,
+			const NotificationType&, const CheckResult::Ptr&, const String&, const String&,
+			const MessageOrigin::Ptr&) { l_Signals++; });
 	}
 	/* what a cluster event handler plus its signal handler do (clusterevents.cpp:97-183 and siblings) */
 	ApiFunction::Register("event::VerifC11", new ApiFunction([](const MessageOrigin::Ptr& origin, const Dictionary::Ptr& params) -> Value {
@@ -866,6 +1043,291 @@ static void RunCase(const Case& c)
 			oz.c_str(), tsOk ? 1 : 0, old, bad, master);
 }
 
+/* ------------------------------------------------------------------------------------------- */
+/* E lines: one network step through a real cluster event handler */
+
+struct ECase {
+	std::string conn, from, originzone, objzone, method;
+	int var = 0;
+};
+
+static bool ParseEvent(const std::vector<std::string>& w, ECase& c)
+{
+	if (w.size() != 7 || w[0] != "E") return false;
+	c.conn = w[1]; c.from = w[2]; c.originzone = w[3]; c.objzone = w[4]; c.method = w[5];
+	int nz = (int)l_T.parent.size(), nep = (int)l_T.zoneOf.size();
+	auto isIdx = [](const std::string& s, int n) { return !s.empty() && s.size() < 4 && s.find_first_not_of("0123456789") == std::string::npos && atoi(s.c_str()) < n; };
+	if ((int)c.conn.size() != nep) return false;
+	if (!isIdx(c.from, nep) || atoi(c.from.c_str()) == l_T.self) return false;
+	if (c.originzone != "-" && !isIdx(c.originzone, nz)) return false;
+	if (c.objzone != "-" && !isIdx(c.objzone, nz)) return false;
+	const EvMethod *m = FindMethod(c.method);
+	if (!m) return false;
+	if (!isIdx(w[6], 4)) return false;
+	c.var = atoi(w[6].c_str());
+	if (c.var >= 2 && c.method != "SetRemovalInfo") return false;
+	/* a checkable has no global zone */
+	if (m->sec == 'c' && c.objzone != "-" && l_T.Global(atoi(c.objzone.c_str()))) return false;
+	return true;
+}
+
+static std::vector<ConfigObject::Ptr> GroupObjects(int z)
+{
+	std::vector<ConfigObject::Ptr> r;
+	String hn = String(HostName(z));
+	Host::Ptr h = Host::GetByName(hn);
+	r.push_back(h);
+	r.push_back(h->GetServiceByShortName("s"));
+	for (const char *x : { "!n", "!s!n" }) r.push_back(Notification::GetByName(hn + x));
+	for (const char *x : { "!c", "!s!c" }) r.push_back(Comment::GetByName(hn + x));
+	for (const char *x : { "!d", "!s!d" }) r.push_back(Downtime::GetByName(hn + x));
+	for (auto& o : r) if (!o) { fprintf(stderr, "h_c11: object group incomplete\n"); _exit(2); }
+	return r;
+}
+
+static std::string Snapshot(const std::vector<ConfigObject::Ptr>& objs)
+{
+	std::string s;
+	for (auto& o : objs) {
+		s += std::string(JsonEncode(Serialize(o, FAState)).CStr()) + "\n";
+		/* the removal information is neither config nor state */
+		if (auto c = dynamic_pointer_cast<Comment>(o)) s += std::string(c->GetRemovedBy().CStr()) + "\n";
+		if (auto d = dynamic_pointer_cast<Downtime>(o)) s += std::string(d->GetRemovedBy().CStr()) + "\n";
+	}
+	return s;
+}
+
+/* the parameters of the event, chosen such that processing it changes something on the node */
+static Dictionary::Ptr EventParams(const ECase& c, int z)
+{
+	const std::string& m = c.method;
+	bool svc = (c.var & 1) != 0;
+	bool downtime = m == "SetRemovalInfo" && (c.var & 2);
+	String hn = String(HostName(z));
+	Host::Ptr host = Host::GetByName(hn);
+	Checkable::Ptr chk = host;
+	if (svc) chk = host->GetServiceByShortName("s");
+	String nname = hn + (svc ? "!s!n" : "!n");
+	String cname = hn + (svc ? "!s" : "") + (downtime ? "!d" : "!c");
+	Notification::Ptr nt = Notification::GetByName(nname);
+	Dictionary::Ptr p = new Dictionary();
+	auto hostParams = [&]() { p->Set("host", hn); if (svc) p->Set("service", "s"); };
+	double v = l_Now + 1000 + (double)l_Tick;
+
+	if (m == "CheckResult") {
+		hostParams();
+		int state = 1 + (int)(l_Tick % 3);
+		p->Set("cr", new Dictionary({ { "type", "CheckResult" }, { "state", state }, { "output", String("o" + std::to_string(l_Tick)) },
+			{ "schedule_start", l_Now }, { "schedule_end", l_Now }, { "execution_start", l_Now }, { "execution_end", l_Now },
+			{ "active", true }, { "exit_status", state }, { "performance_data", Array::Ptr(new Array()) } }));
+	} else if (m == "SetNextCheck") {
+		hostParams(); p->Set("next_check", v);
+	} else if (m == "SetLastCheckStarted") {
+		hostParams(); p->Set("last_check_started", v);
+	} else if (m == "SetStateBeforeSuppression") {
+		hostParams(); p->Set("state_before_suppression", ((int)chk->GetStateBeforeSuppression() + 1) % 4);
+	} else if (m == "SetSuppressedNotifications") {
+		hostParams(); p->Set("suppressed_notifications", (chk->GetSuppressedNotifications() + 1) % 64);
+	} else if (m == "SetSuppressedNotificationTypes") {
+		p->Set("notification", nname); p->Set("suppressed_notifications", (nt->GetSuppressedNotifications() + 1) % 64);
+	} else if (m == "SetNextNotification") {
+		p->Set("notification", nname); p->Set("next_notification", v);
+	} else if (m == "UpdateLastNotifiedStatePerUser") {
+		p->Set("notification", nname); p->Set("user", "usr1"); p->Set("state", (double)(l_Tick % 1000) + 5);
+	} else if (m == "ClearLastNotifiedStatePerUser") {
+		p->Set("notification", nname);
+		nt->GetLastNotifiedStatePerUser()->Set("usr1", 2);
+	} else if (m == "SetForceNextCheck") {
+		hostParams(); p->Set("forced", !chk->GetForceNextCheck());
+	} else if (m == "SetForceNextNotification") {
+		hostParams(); p->Set("forced", !chk->GetForceNextNotification());
+	} else if (m == "SetAcknowledgement") {
+		hostParams();
+		p->Set("author", "a"); p->Set("comment", "c"); p->Set("acktype", 1); p->Set("notify", false);
+		p->Set("persistent", false); p->Set("expiry", 0); p->Set("change_time", l_Now);
+		chk->SetAcknowledgementRaw(AcknowledgementNone); chk->SetAcknowledgementExpiry(0);
+	} else if (m == "ClearAcknowledgement") {
+		hostParams(); p->Set("author", "a"); p->Set("change_time", l_Now);
+		chk->SetAcknowledgementRaw(AcknowledgementNormal);
+	} else if (m == "SendNotifications") {
+		hostParams(); p->Set("type", 32); p->Set("author", "a"); p->Set("text", "t");
+	} else if (m == "NotificationSentUser") {
+		hostParams(); p->Set("notification", nname); p->Set("user", "usr1"); p->Set("type", 32);
+		p->Set("author", "a"); p->Set("text", "t"); p->Set("command", "nc");
+	} else if (m == "NotificationSentToAllUsers") {
+		hostParams(); p->Set("notification", nname); p->Set("users", Array::Ptr(new Array({ String("usr1") }))); p->Set("type", 32);
+		p->Set("author", "a"); p->Set("text", "t"); p->Set("last_notification", v); p->Set("next_notification", v + 60);
+		p->Set("notification_number", (double)(l_Tick % 1000)); p->Set("last_problem_notification", v);
+		p->Set("no_more_notifications", false);
+	} else if (m == "UpdateExecutions") {
+		hostParams();
+		p->Set("executions", new Dictionary({ { String("x" + std::to_string(l_Tick)), Dictionary::Ptr(new Dictionary({ { "pending", true } })) } }));
+		chk->SetExecutions(new Dictionary());
+	} else if (m == "SetRemovalInfo") {
+		p->Set("object_type", downtime ? "Downtime" : "Comment"); p->Set("object_name", cname);
+		p->Set("removed_by", String("r" + std::to_string(l_Tick))); p->Set("remove_time", v);
+	} else {
+		Die("no parameters for method " + m);
+	}
+	return p;
+}
+
+static std::string ZoneTok(const Value& v)
+{
+	if (v.IsEmpty()) return "-";
+	String s = v;
+	if (s.GetLength() < 2 || s[0] != 'z') return "?";
+	return std::string(s.CStr() + 1);
+}
+
+static std::vector<JsonRpcConnection::Ptr> AllConns()
+{
+	std::vector<JsonRpcConnection::Ptr> conns;
+	for (size_t e = 0; e < l_New.size(); e++) { conns.push_back(l_New[e]); conns.push_back(l_Old[e]); }
+	conns.push_back(l_Anon);
+	return conns;
+}
+
+static void RunEvent(const ECase& c)
+{
+	int nz = (int)l_T.parent.size(), nep = (int)l_T.zoneOf.size();
+	l_Tick++;
+	l_Now += 1;
+	SetNow(l_Now);
+	SetConn(c.conn);
+	int z = c.objzone == "-" ? nz : atoi(c.objzone.c_str());
+	Dictionary::Ptr params = EventParams(c, z);
+	Sync();
+	auto conns = AllConns();
+	DrainAll(conns);
+	for (auto& ep : l_Eps) ep->SetLocalLogPosition(0);
+	auto objs = GroupObjects(z);
+	std::string before = Snapshot(objs);
+	l_Signals = 0;
+
+	ApiListener *l = l_Listener.get();
+	size_t logBefore = l->*get(LogCountTag());
+	String method = String("event::" + c.method);
+	Dictionary::Ptr raw = new Dictionary({ { "jsonrpc", "2.0" }, { "method", method }, { "params", params } });
+	if (c.originzone != "-") raw->Set("originZone", String(ZoneName(atoi(c.originzone.c_str()))));
+	JsonRpcConnection *conn = l_New[atoi(c.from.c_str())].get();
+	(conn->*get(MhTag()))(raw);
+	Sync();
+	size_t logAfter = l->*get(LogCountTag());
+	auto queues = DrainAll(conns);
+	int applied = (Snapshot(objs) != before || l_Signals > 0) ? 1 : 0;
+
+	std::string oz = "-";
+	bool first = true, tsOk = true;
+	std::vector<int> sent;
+	int old = 0, bad = 0, others = 0;
+	for (size_t i = 0; i < queues.size(); i++) {
+		for (const String& text : queues[i]) {
+			Dictionary::Ptr m;
+			try { m = JsonDecode(text); } catch (...) { }
+			if (!m) { bad++; continue; }
+			if (m->Get("method") != method) { others++; continue; }
+			std::string t = ZoneTok(m->Get("originZone"));
+			if (first) { oz = t; first = false; } else if (t != oz) oz = "!";
+			if (!m->Contains("ts") || (double)m->Get("ts") != l_Now) tsOk = false;
+			if (i == queues.size() - 1) { bad++; continue; }            /* the anonymous connection */
+			if (i % 2 == 1) { old++; continue; }
+			sent.push_back((int)(i / 2));
+		}
+	}
+	for (int e = 0; e < nep; e++) {
+		double p = l_Eps[e]->GetLocalLogPosition();
+		if (p != l_Now && p != 0) bad++;
+	}
+	printf("E %s %s %s %s %s %d | a=%d s=%s p=%d oz=%s ts=%d old=%d bad=%d x=%d m=%d\n", c.conn.c_str(), c.from.c_str(), c.originzone.c_str(),
+		c.objzone.c_str(), c.method.c_str(), c.var, applied, ListTok(sent).c_str(), logAfter > logBefore ? 1 : 0, oz.c_str(), tsOk ? 1 : 0,
+		old, bad, others, MasterIndex());
+}
+
+/* ------------------------------------------------------------------------------------------- */
+/* P lines: what ApiListener::ReplayLog puts on the wire for an endpoint that (re)connects */
+
+struct PCase {
+	std::string objzone, kind;
+	int del = 0, target = 0;
+};
+
+static bool ParseReplay(const std::vector<std::string>& w, PCase& c)
+{
+	if (w.size() != 5 || w[0] != "P") return false;
+	c.objzone = w[1]; c.kind = w[2];
+	int nz = (int)l_T.parent.size(), nep = (int)l_T.zoneOf.size();
+	auto isIdx = [](const std::string& s, int n) { return !s.empty() && s.size() < 4 && s.find_first_not_of("0123456789") == std::string::npos && atoi(s.c_str()) < n; };
+	if (c.objzone != "-" && !isIdx(c.objzone, nz)) return false;
+	if (c.kind != "z" && c.kind != "u" && c.kind != "n") return false;
+	if (c.objzone == "-" && c.kind == "z") return false;
+	if (c.objzone != "-" && c.kind == "n") return false;
+	if (w[3] != "0" && w[3] != "1") return false;
+	c.del = w[3] == "1";
+	if (c.del && c.kind != "u") return false;
+	if (!isIdx(w[4], nep) || atoi(w[4].c_str()) == l_T.self) return false;
+	c.target = atoi(w[4].c_str());
+	return true;
+}
+
+static void RunReplay(const PCase& c)
+{
+	int nz = (int)l_T.parent.size(), nep = (int)l_T.zoneOf.size();
+	l_Tick++;
+	l_Now += 1;
+	SetNow(l_Now);
+	std::string none(nep, '0');
+	SetConn(none);
+	Sync();
+	auto conns = AllConns();
+	DrainAll(conns);
+	for (auto& ep : l_Eps) ep->SetLocalLogPosition(0);
+
+	ApiListener *l = l_Listener.get();
+	/* start from an empty replay log (ReplayLog reads every record of every file) */
+	{
+		(l->*get(CloseTag()))();
+		std::error_code ec;
+		for (auto& e : fs::directory_iterator(l_Dir + "/api/log", ec)) fs::remove(e.path(), ec);
+		(l->*get(OpenTag()))();
+	}
+	size_t logBefore = l->*get(LogCountTag());
+	ConfigObject::Ptr secobj;
+	if (c.kind == "z") secobj = l_Zones[atoi(c.objzone.c_str())];
+	else if (c.kind == "u") secobj = c.objzone == "-" ? l_Users[nz] : l_Users[atoi(c.objzone.c_str())];
+	Dictionary::Ptr params = new Dictionary({ { "n", (double)l_Tick } });
+	Dictionary::Ptr message = new Dictionary({ { "jsonrpc", "2.0" }, { "method", "event::VerifC11" }, { "params", params } });
+	l->RelayMessage(nullptr, secobj, message, true);
+	Sync();
+	size_t logAfter = l->*get(LogCountTag());
+	DrainAll(conns);
+
+	/* the object disappears (a comment, a downtime, any object created through the API can be deleted at runtime) */
+	if (c.del) secobj->Unregister();
+	/* the endpoint connects; everything older than this event counts as confirmed */
+	std::string one = none;
+	one[c.target] = '1';
+	SetConn(one);
+	l_Eps[c.target]->SetLocalLogPosition(l_Now - 0.5);
+	(l->*get(ReplayTag()))(l_New[c.target]);
+	Sync();
+	if (c.del) secobj->Register();
+	auto queues = DrainAll(conns);
+	int replayed = 0, others = 0;
+	for (size_t i = 0; i < queues.size(); i++) {
+		for (const String& text : queues[i]) {
+			Dictionary::Ptr m;
+			try { m = JsonDecode(text); } catch (...) { }
+			if (m && m->Get("method") == "log::SetLogPosition") continue;
+			bool mine = m && m->Get("method") == "event::VerifC11" && m->Get("params").IsObjectType<Dictionary>()
+				&& (double)Dictionary::Ptr(m->Get("params"))->Get("n") == (double)l_Tick;
+			if (mine && i == (size_t)(2 * c.target)) replayed++; else others++;
+		}
+	}
+	l_Eps[c.target]->SetSyncing(false);
+	printf("P %s %s %d %d | p=%d r=%d x=%d\n", c.objzone.c_str(), c.kind.c_str(), c.del, c.target, logAfter > logBefore ? 1 : 0, replayed, others);
+}
+
 static int NodeMain(const std::string& file, const std::string& work, const std::string& id)
 {
 	std::ifstream in(file);
@@ -912,6 +1374,14 @@ static int NodeMain(const std::string& file, const std::string& work, const std:
 			Case c;
 			if (!built || !ParseDeliver(w, c)) Die("bad D line: " + line);
 			RunCase(c);
+		} else if (w[0] == "E") {
+			ECase c;
+			if (!built || !ParseEvent(w, c)) Die("bad E line: " + line);
+			RunEvent(c);
+		} else if (w[0] == "P") {
+			PCase c;
+			if (!built || !ParseReplay(w, c)) Die("bad P line: " + line);
+			RunReplay(c);
 		} else {
 			Die("bad line: " + line);
 		}
